@@ -247,8 +247,8 @@ class DataSet:
             2: _parse_v2,
         }
 
-        version: int = dictionary.get("version", VERSION)
-        del dictionary["version"]
+        dictionary = dictionary.copy()
+        version: int = dictionary.pop("version", VERSION)
 
         if version > VERSION:
             raise ValueError(f"Unsupported version: {version=} > {VERSION=}")
